@@ -249,6 +249,12 @@ let () =
       Printf.printf "%s PAYDEC %s\n" id
         (match get_decoded (fun _ -> None) (bytes_of_hex hx) with
          | POk b -> "ok " ^ hex_of_bytes b | PErr -> "err" | PPanic -> "panic")
+    | [id; "CFGFRAME"; m; ca; ce; k; _rb; _tag; st] ->
+      let c = { c_mutual_tls = bool_of_string01 m; c_cafile = bool_of_string01 ca;
+                c_certfile = bool_of_string01 ce; c_keyfile = bool_of_string01 k } in
+      let enc = transport_encrypted c in
+      Printf.printf "%s CFGFRAME ENC %d %s\n" id (if enc then 1 else 0)
+        (show_verdict (read_frame enc (bytes_of_hex st)))
     | [id; "CRC"; p] ->
       Printf.printf "%s CRC %s\n" id (string_of_n (crc32 (bytes_of_hex p)))
     | [id; "ENTRY"; t; i; ty; k; c; s; r; cmd] ->
